@@ -135,7 +135,7 @@ func recoversPanics(f *ssa.Function) bool {
 // the part applied so far).
 func ruleR09_11(w *World, r *Report) {
 	u := w.Client()
-	r.Rule("R09.11", "the operations of a received unit are decoded before the first of them is applied, by a decoder that reports an undecodable operation as an error (no decoding inside the apply loop, no panicking decoder on the receive path)", 3)
+	r.Rule("R09.11", "the operations of a received unit are decoded before the first of them is applied, by a decoder that reports an undecodable operation as an error (no decoding inside the apply loop, no panicking decoder on the receive path, which includes the first operation of an error or subscribe response)", 5)
 	fnE := u.Fn(pDatatypes, "TransactionDatatype", "ExecuteRemoteTransactionWithCtx")
 	fnR := u.Fn(pDatatypes, "WiredDatatype", "ReceiveRemoteModelOperations")
 	if fnE == nil {
@@ -144,7 +144,11 @@ func ruleR09_11(w *World, r *Report) {
 	if fnR == nil {
 		r.Lost("WiredDatatype.ReceiveRemoteModelOperations")
 	}
-	for _, fn := range []*ssa.Function{fnE, fnR} {
+	fnC := u.Fn(pDatatypes, "WiredDatatype", "checkOptionAndError")
+	if fnC == nil {
+		r.Lost("WiredDatatype.checkOptionAndError")
+	}
+	for _, fn := range []*ssa.Function{fnE, fnR, fnC} {
 		if fn == nil {
 			continue
 		}
@@ -159,7 +163,7 @@ func ruleR09_11(w *World, r *Report) {
 			n++
 			decodes = append(decodes, c)
 			r.Check(recoversPanics(cal), short+"/decoder "+cal.Name(), u.Pos(c.Pos()), "the decoder turns a panic of the body decoding into an error",
-				"received operations are decoded with "+cal.Name()+", which panics on a body that is not valid JSON and on an unknown operation type: a malformed unit ends the apply path by a panic (in ExecuteRemoteTransactionWithCtx the deferred EndTransaction then commits the part applied so far) instead of being refused as a whole (F53)")
+				"received operations are decoded with "+cal.Name()+", which panics on a body that is not valid JSON and on an unknown operation type: a malformed unit or response ends the apply path by a panic (in ExecuteRemoteTransactionWithCtx the deferred EndTransaction then commits the part applied so far) instead of being refused as a whole and reported (F53, F58)")
 		}
 		if n == 0 {
 			r.Lost(short + ": decoding of the received operations")
@@ -703,4 +707,109 @@ func ruleR16_12(w *World, r *Report) {
 	if n < 2 {
 		r.Lost(fmt.Sprintf("R16.12 instances (found %d)", n))
 	}
+}
+
+// R19.8 every patch operation that is accepted acted on an object or an array (F57)
+func ruleR19_8(w *World, r *Report) {
+	u := w.Client()
+	r.Rule("R19.8", "patchEach returns without error only after an operation on the resolved parent (PutToObject, InsertToArray, DeleteInObject, DeleteInArray, UpdateManyInArray): a parent that is neither an object nor an array is an error, not a silent no-op", 1)
+	fn := u.Fn(pOrda, "document", "patchEach")
+	if fn == nil {
+		r.Lost("document.patchEach")
+		return
+	}
+	acts := map[*ssa.BasicBlock]bool{}
+	var actInstrs []ssa.Instruction
+	for _, c := range callsNamed(fn, "PutToObject", "InsertToArray", "DeleteInObject", "DeleteInArray", "UpdateManyInArray") {
+		actInstrs = append(actInstrs, c.(ssa.Instruction))
+		if c.Parent() == fn {
+			acts[c.Block()] = true
+		}
+	}
+	if len(actInstrs) < 5 {
+		r.Lost(fmt.Sprintf("patchEach: the operations on the resolved parent (found %d)", len(actInstrs)))
+		return
+	}
+	n := 0
+	forEachInstr(fn, func(in ssa.Instruction) {
+		ret, ok := in.(*ssa.Return)
+		if !ok || ret.Parent() != fn || ret.Block().Comment == "recover" || definiteErrorExit(fn, ret) {
+			return
+		}
+		n++
+		paths, okp := pathsWithBlocks(fn, nil, ret.Block())
+		good := okp && len(paths) > 0
+		why := ""
+		for _, p := range paths {
+			// error exits that share this return (a returned err variable tested non-nil) are not judged here
+			isErr := false
+			for _, l := range p.Lits {
+				if l.Kind == "cmp" && l.Op == token.NEQ {
+					if k, isC := l.Y.(*ssa.Const); isC && k.Value == nil {
+						for _, res := range ret.Results {
+							for _, v := range resolvePhis(res) {
+								if stripIface(v) == stripIface(loadSource(l.X)) || v == l.X {
+									isErr = true
+								}
+							}
+						}
+					}
+				}
+			}
+			if isErr || contradictoryLits(p.Lits) {
+				continue
+			}
+			acted := false
+			for b := range p.Blocks {
+				if acts[b] {
+					acted = true
+				}
+				// an operation inside a new helper called from this block
+				for _, i2 := range b.Instrs {
+					if c, isCall := i2.(*ssa.Call); isCall {
+						if h := c.Call.StaticCallee(); h != nil && flattenable[h] {
+							for _, a := range actInstrs {
+								if a.Parent() == h {
+									acted = true
+								}
+							}
+						}
+					}
+				}
+			}
+			if !acted {
+				good = false
+				why = litsString(p.Lits)
+			}
+		}
+		r.Check(good, "patchEach/accepted operation acted", u.Pos(ret.Pos()), "every error-free exit passed an operation on the parent",
+			"patchEach returns no error on a path that performed no operation (under "+why+"): a patch whose parent is neither an object nor an array is accepted and does nothing, also in the middle of a unit of several patches, which then commits the others as if all had been applied (F57)")
+	})
+	if n == 0 {
+		r.Lost("patchEach: an exit without error")
+	}
+}
+
+// contradictoryLits: the path tests one and the same quantity for "== k" and for "!= k" (repeated calls of a getter
+// on the same receiver count as the same quantity): no execution takes it.
+func contradictoryLits(lits []Lit) bool {
+	eq, ne := map[string]bool{}, map[string]bool{}
+	for _, l := range lits {
+		lc, ok := canonLinCmp(l)
+		if !ok {
+			continue
+		}
+		switch lc.Op {
+		case token.EQL:
+			eq[lc.L.String()] = true
+		case token.NEQ:
+			ne[lc.L.String()] = true
+		}
+	}
+	for k := range eq {
+		if ne[k] {
+			return true
+		}
+	}
+	return false
 }
